@@ -453,4 +453,91 @@ theorem roundCls_legal_iff (n : Int) (d : Nat) (hd : 0 < d) :
 theorem roundCls_ne_nan (n : Int) (d : Nat) : roundCls n d ≠ .nan := by
   unfold roundCls; split <;> (try split) <;> simp
 
+/-- Magnitude (in units of 2^-1074) encoded by exponent field `e < 2047` and fraction `f`. -/
+def mag (e f : Nat) : Nat := if e = 0 then f else (2 ^ 52 + f) * 2 ^ (e - 1)
+
+theorem ofNatBits_nonneg (n : Nat) (h : n < 0x7ff0000000000000) :
+    ofNatBits n = .fin (mag (n / 2 ^ 52) (n % 2 ^ 52) : Nat) := by
+  have h1 : n / 2 ^ 63 % 2 = 0 := by omega
+  have h2 : n / 2 ^ 52 % 2048 = n / 2 ^ 52 := by omega
+  have h3 : n / 2 ^ 52 < 2047 := by omega
+  unfold ofNatBits mag
+  simp only [h1, h2]
+  have : ¬ (n / 2 ^ 52 == 2047) = true := by simp; omega
+  simp [this]
+
+theorem mag_succ (e f : Nat) : mag e f < mag e (f + 1) := by
+  unfold mag
+  split
+  · omega
+  · have : 0 < 2 ^ (e - 1) := Nat.two_pow_pos _
+    apply Nat.mul_lt_mul_of_pos_right (by omega) this
+
+theorem mag_carry (e : Nat) : mag e (2 ^ 52 - 1) < mag (e + 1) 0 := by
+  unfold mag
+  by_cases he : e = 0
+  · subst he; simp
+  · have hp : 2 ^ (e + 1 - 1) = 2 * 2 ^ (e - 1) := by
+      rw [show e + 1 - 1 = (e - 1) + 1 by omega, Nat.pow_succ]; omega
+    have he1 : e + 1 ≠ 0 := by omega
+    simp only [he, he1, if_false, hp]
+    have : 0 < 2 ^ (e - 1) := Nat.two_pow_pos _
+    generalize 2 ^ (e - 1) = P at *
+    omega
+
+theorem ofNatBits_succ_lt (n : Nat) (h : n + 1 < 0x7ff0000000000000) :
+    lt (ofNatBits n) (ofNatBits (n + 1)) = true := by
+  rw [ofNatBits_nonneg n (by omega), ofNatBits_nonneg (n + 1) h]
+  simp only [lt, decide_eq_true_eq]
+  by_cases hc : n % 2 ^ 52 + 1 < 2 ^ 52
+  · have e1 : (n + 1) / 2 ^ 52 = n / 2 ^ 52 := by omega
+    have e2 : (n + 1) % 2 ^ 52 = n % 2 ^ 52 + 1 := by omega
+    rw [e1, e2]
+    exact_mod_cast mag_succ _ _
+  · have e1 : (n + 1) / 2 ^ 52 = n / 2 ^ 52 + 1 := by omega
+    have e2 : (n + 1) % 2 ^ 52 = 0 := by omega
+    have e3 : n % 2 ^ 52 = 2 ^ 52 - 1 := by omega
+    rw [e1, e2, e3]
+    exact_mod_cast mag_carry _
+
+theorem ofNatBits_mono (m n : Nat) (hmn : m < n) (hn : n < 0x7ff0000000000000) :
+    lt (ofNatBits m) (ofNatBits n) = true := by
+  induction n with
+  | zero => omega
+  | succ n ih =>
+    have hs := ofNatBits_succ_lt n hn
+    by_cases h : m = n
+    · subst h; exact hs
+    · exact lt_trans' _ _ _ (ih (by omega) (by omega)) hs
+
+theorem ofNatBits_sign (n : Nat) (h : n < 2 ^ 63) : ofNatBits (n + 2 ^ 63) = negF (ofNatBits n) := by
+  have h1 : (n + 2 ^ 63) / 2 ^ 63 % 2 = 1 := by omega
+  have h2 : n / 2 ^ 63 % 2 = 0 := by omega
+  have h3 : (n + 2 ^ 63) / 2 ^ 52 % 2048 = n / 2 ^ 52 % 2048 := by omega
+  have h4 : (n + 2 ^ 63) % 2 ^ 52 = n % 2 ^ 52 := by omega
+  unfold ofNatBits
+  simp only [h1, h2, h3, h4]
+  split
+  · split <;> simp [negF]
+  · simp [negF]
+
+theorem legal_ofNatBits (n : Nat) :
+    legal (ofNatBits n) = false ↔
+      (n / 2 ^ 52 % 2048 = 2047 ∧ (n % 2 ^ 52 ≠ 0 ∨ n / 2 ^ 63 % 2 = 1)) := by
+  unfold ofNatBits
+  simp only
+  split
+  · rename_i he
+    have he' : n / 2 ^ 52 % 2048 = 2047 := by simpa using he
+    split
+    · rename_i hf
+      have hf' : n % 2 ^ 52 = 0 := by simpa using hf
+      split <;> simp_all [legal]
+    · rename_i hf
+      have hf' : n % 2 ^ 52 ≠ 0 := by simpa using hf
+      simp [legal, he', hf']
+  · rename_i he
+    have he' : ¬ n / 2 ^ 52 % 2048 = 2047 := by simpa using he
+    simp [legal, he']
+
 end MahfModel.Objective
